@@ -567,7 +567,7 @@ def stepAck (st : State) (toks : List String) : State × String :=
   | "lc.concurrent" :: rest =>
     -- any interleaving of atomic writes: all succeed, contiguous offsets
     let get (k : String) : String := (DbProto.kvOf rest k).getD "_"
-    let n := (get "writers").toNat?.getD 0 * (get "each").toNat?.getD 0
+    let n := (get "writers").toNat?.getD 0 * (get "each").toNat?.getD 0 + (get "extra").toNat?.getD 0
     let atomic := Facts.writeHoldsAppendLockAcrossAllocAndAppend
     let evs : List Ack.PEv := if atomic then (List.range n).map .write
       else ((List.range n).map .alloc) ++ ((List.range n).reverse.map .append)
